@@ -50,3 +50,10 @@ Definition repaired_generator : generator_cfg := {| ug_single_arg := true; ug_ne
 Definition nested_generator : generator_cfg := {| ug_single_arg := true; ug_nested := true; ug_updated_parts := false |}.
 (** `return updated_node` and the generator built from the updated comprehension *)
 Definition nested_updated_generator : generator_cfg := {| ug_single_arg := true; ug_nested := true; ug_updated_parts := true |}.
+
+(** fix_empty_sequence_comparison.leave_Comparison *)
+Record empty_seq_cfg := {
+  es_parens : bool        (* true: the new `not x` keeps the parentheses of the comparison it replaces (repaired) *)
+}.
+Definition pinned_empty_seq : empty_seq_cfg := {| es_parens := false |}.
+Definition repaired_empty_seq : empty_seq_cfg := {| es_parens := true |}.
